@@ -92,7 +92,7 @@ func c03Searches(p *run.Part, tier string) []*seqx.Search {
 	}
 	return []*seqx.Search{mk(CfgDef3, "", depth), mk(CfgHash3, "", depth), mk(CfgShared3, "", depth-1), mk(CfgSharedH, "", depth-1),
 		mk(CfgDef3, "+tri4", pdepth), mk(CfgDef3, "+fork12", pdepth), mk(CfgClk3, "", depth-1), mkPolicy(mk, "denyB/default", depth), mkPolicy(mk, "denyP3/default", depth),
-		mk(CfgDef3, "+ab-merged", depth-1), mk(CfgDef3, "+abc", depth-1), mk2(mk, depth+2), mkEmpty(mk, CfgDef3, depth-1), mkPartial(mk, depth)}
+		mk(CfgDef3, "+ab-merged", depth-1), mk(CfgDef3, "+abc", depth-1), mk2(mk, depth+2), mkEmpty(mk, CfgDef3, depth-1), mkPartial(mk, depth), mkSetID(mk, depth-1)}
 }
 
 func init() {
